@@ -17,7 +17,8 @@ THEOREM_NAMES = ['run_fuel_mono', 'input_rt', 'output_fluor_rt', 'input_fluor_re
                  'input_layout', 'output_layout', 'seesaw_layout', 'conc_layout', 'reporter_layout', 'inputfanout_layout', 'seesawOR_layout',
                  'seesawAND_layout', 'kind_input', 'kind_output', 'kind_seesaw', 'kind_conc', 'kind_reporter', 'kind_inputfanout',
                  'kind_seesawOR', 'kind_seesawAND', 'conc_thI_gen_rt', 'conc_wire_gen_rt', 'seesaw_f_rt', 'input_gen_rt',
-                 'wrong_arity_rejected', 'reporter_one_argument_rejected', 'negative_concentration_rejected_layout']
+                 'wrong_arity_rejected', 'reporter_one_argument_rejected', 'negative_concentration_rejected_layout',
+                 'ssw_every_layout', 'ssw_document_indent_rt']
 THEOREMS = ['Dsd.C19.' + t for t in THEOREM_NAMES]
 ASSUMPTIONS = [
     'pyparsing 3.3.2 is modelled by a hand-written interpreter (Model/Pyparsing.lean); the seesaw grammar term (Gen/Grammars.lean: '
@@ -43,7 +44,8 @@ MANIFEST = {
             'numbers or identifiers, concentrations in integer / decimal / scientific form for all five argument forms incl. thI, f in '
             'seesaw output lists), and general rejections at document level: wrong_arity_rejected (reporter with 1 or 3 arguments, '
             'seesaw without its second list, inputfanout without number / list - with any separators, after any well-formed '
-            'statements, before any text) and negative_concentration_rejected_layout. Indented statements, scientific concentrations, thI and files are NOT theorems: they are decided on the real parser by a reference renderer, '
+            'statements, before any text) and negative_concentration_rejected_layout; ssw_every_layout: EVERY LEGAL LAYOUT in one statement (lines = blank / comment-only or '
+            'indentation + statement of any kind with separators at every boundary + optional comment; LF / CRLF; unterminated last line). Scientific concentrations, thI and files are NOT theorems: they are decided on the real parser by a reference renderer, '
             'and the model is compared with pyparsing on the same texts, the systematic negative family and random mutations.',
     'note': 'pyparsing semantics is modelled by hand and tied by differential testing only.',
     'technique': 'Lean 4 symbolic execution of a pyparsing interpreter over the grammar regenerated from source (induction on list length); correspondence check; reference renderer oracle',
